@@ -158,7 +158,7 @@ func gen(a Args, out *Out) {
 					}
 				case 2:
 					if h.NextID < maxT {
-						h.Every(int64(r.Range(0, 6)))
+						h.Every(int64(r.Range(-2, 6)))
 					}
 				case 3, 4, 5:
 					h.Cancel(int64(r.Range(0, int(h.NextID)+1)))
@@ -577,11 +577,14 @@ func gen(a Args, out *Out) {
 	// 11. the worker parked on its output (Chan() full, nobody reading) inside a tick that
 	// has more to hand over, a Cancel arriving meanwhile (see drv.ParkedOnOutput): a
 	// repeating timer whose Cancel returns true must not be handed over afterwards
-	for _, pk := range [][2]int64{{drv.ImplParkWheel, 0}, {drv.ImplParkHeap, 0}, {drv.ImplParkWheel, 1}, {drv.ImplParkHeap, 1}} {
+	for _, pk := range [][2]int64{{drv.ImplParkWheel, 0}, {drv.ImplParkHeap, 0}, {drv.ImplParkWheel, 1}, {drv.ImplParkHeap, 1},
+		{drv.ImplParkHeap, 2}, {drv.ImplParkWheel, 3}, {drv.ImplParkHeap, 3}} {
 		in := List(Int(pk[0]), Int(pk[1]), Int(0), List())
 		kind := "parked"
-		if pk[1] == 0 {
+		if pk[1] == 0 || pk[1] == 2 {
 			kind = "parked-repeating"
+		} else if pk[1] == 3 {
+			kind = "parked-shutdown"
 		}
 		out.Case(kind, true, in, drv.Run(in))
 		out.Count("parked-on-output-scenarios")
@@ -686,6 +689,7 @@ func gen(a Args, out *Out) {
 		}
 	}
 
+	nilRunnable(out)
 	deepSlots(a, rng.Fork(), out, 2)
 	deepSlots(a, rng.Fork(), out, 3)
 
@@ -839,5 +843,41 @@ func deepSlots(a Args, rng *Rng, out *Out, tv int) {
 			fail("scheduler panicked")
 		}
 		out.Count(fmt.Sprintf("deepslot:tvec%d", tv))
+	}
+}
+
+// nilRunnable: a timer started with a nil Runnable must not hurt the scheduler (the heap
+// drops it at expiry without sending, the wheel hands the nil over): no panic, and the
+// timer leaves the bookkeeping at its due tick like any other.
+func nilRunnable(out *Out) {
+	for _, impl := range []int64{drv.ImplWheel, drv.ImplHeap} {
+		h := drv.NewHist(impl, 1000, 0)
+		d := drv.NewDriver(impl, 1000, 0)
+		t := d.Timer()
+		p, _ := Catch(func() {
+			id := t.RunAfter(2, nil)
+			t.RunAfter(2, &drv.Job{Ord: 2})
+			d.HandleAdd()
+			d.HandleAdd()
+			d.Pass(2)
+			done := make(chan struct{})
+			n := 0
+			go func() { d.Tick(); close(done) }()
+			for fin := false; !fin; {
+				select {
+				case <-t.Chan():
+					n++
+				case <-done:
+					fin = true
+				}
+			}
+			out.GoChecked++
+			if t.IsScheduled(id) || t.Size() != 0 {
+				out.Violation("C06/nil-runnable", "a timer with a nil Runnable is still counted after its due tick", h.Sx())
+			}
+		})
+		if p {
+			out.Violation("C06/nil-runnable", "the scheduler panicked on a timer with a nil Runnable", h.Sx())
+		}
 	}
 }
